@@ -161,6 +161,20 @@ theorem eval_vec4 (I : Interp) (ρ : Nat → ℝ) (a b c d : Ex) :
     (fun i => Ex.eval I ρ (![a,b,c,d] i)) = ![a.eval I ρ, b.eval I ρ, c.eval I ρ, d.eval I ρ] := by
   funext i; fin_cases i <;> rfl
 
+theorem subst_vec1 (v : Nat) (e a : Ex) :
+    (fun i => Ex.subst v e (![a] i)) = ![Ex.subst v e a] := by
+  funext i; fin_cases i; rfl
+theorem subst_vec2 (v : Nat) (e a b : Ex) :
+    (fun i => Ex.subst v e (![a,b] i)) = ![Ex.subst v e a, Ex.subst v e b] := by
+  funext i; fin_cases i <;> rfl
+theorem subst_vec3 (v : Nat) (e a b c : Ex) :
+    (fun i => Ex.subst v e (![a,b,c] i)) = ![Ex.subst v e a, Ex.subst v e b, Ex.subst v e c] := by
+  funext i; fin_cases i <;> rfl
+theorem subst_vec4 (v : Nat) (e a b c d : Ex) :
+    (fun i => Ex.subst v e (![a,b,c,d] i)) =
+      ![Ex.subst v e a, Ex.subst v e b, Ex.subst v e c, Ex.subst v e d] := by
+  funext i; fin_cases i <;> rfl
+
 /-! a concrete smooth interpretation: the hypotheses of the property theorems are satisfiable -/
 
 noncomputable def expInterp : Interp := ⟨fun _ n _ p => Real.exp (∑ i : Fin n, p i)⟩
